@@ -610,7 +610,7 @@ fn main() {
         machinery("only sequential C13 cases can be replayed individually; re-run the check for the others");
     }
     let quick = ctx.quick() || ctx.variant != "std";
-    let len = if quick { 4 } else { 6 };
+    let len = if quick { 4 } else { 7 };
     ctx.watchdog(180, || J::Str("no progress in the C13 explorer".into()));
     let mut alphabet = vec![];
     for op in OPS {
